@@ -166,7 +166,7 @@ impl Prop for C09 {
             } else {
                 vec![]
             },
-            trace: false,
+            trace: rng.chance(1, 8),
             inbound,
             reads,
             writes,
@@ -208,6 +208,18 @@ impl Prop for C09 {
     fn preludes(&self, sc: &StreamScenario) -> Vec<StreamScenario> {
         crate::streamprop::stream_preludes(sc)
     }
+    fn repro_variants(&self, sc: &StreamScenario) -> Vec<StreamScenario> {
+        // tracing keeps a process-wide callsite cache: a case found with `trace: false` while
+        // another worker had a subscriber reproduces on its own only with `trace: true`
+        if sc.trace {
+            vec![]
+        } else {
+            let mut v = sc.clone();
+            v.trace = true;
+            vec![v]
+        }
+    }
+
     fn rule(&self) -> String {
         "Sweep: every InSim version byte 0..=255 in a VER frame x gate {on, off via setter, off by default} x {blocking, tokio} x both size modes, inside a short random history under random segmentation. Seeded runs: histories with VER frames (arbitrary version bytes) at random positions among all other packet kinds, gate setting drawn per run, transient link faults. Oracle: per frame, the result must equal the model's (delivered iff gate off or version == 9; otherwise IncompatibleVersion carrying exactly that byte; a non-VER frame is never answered with IncompatibleVersion). Non-trivial = fault fired or frame split; distinct by trace signature.".into()
     }
